@@ -293,4 +293,48 @@ theorem promised_proc_pid (w : World) (kind : String) (p : Nat) (s : Sock) (x : 
         exact List.mem_of_mem_head? h
     exact this o hm
 
+/-! ### round 3: a Python that cannot format IPv6 addresses × failing descriptors
+
+  The error handling of `get_proc_inodes` / `get_all_inodes` does not look at the two host flags, so the simulation of
+  Proofs/C11Scan carries over to `c.noV6` verbatim. -/
+
+theorem scan_noV6 (c : Cfg) (fds : List FdEntryE) : scan c.noV6 fds = scan c fds := by
+  induction fds with
+  | nil => rfl
+  | cons x rest ih =>
+    obtain ⟨fd, r⟩ := x
+    cases r with
+    | ok t => simp only [scan, ih]
+    | err e =>
+      have : linkSkips c.noV6 e = linkSkips c e := rfl
+      simp only [scan, ih, this]
+
+theorem eraseProcs_noV6 (c : Cfg) (procs : List (Nat × ListRes)) : eraseProcs c.noV6 procs = eraseProcs c procs := by
+  simp only [eraseProcs]
+  apply List.map_congr_left
+  intro p _
+  cases hp : p.2 with
+  | error e => simp [eraseList]
+  | ok fds => simp only [eraseList, scan_noV6]
+
+theorem listCaught_noV6 (c : Cfg) (l : ListRes) (h : ListCaught c l) : ListCaught c.noV6 l := by
+  cases l with
+  | error e => exact h
+  | ok fds =>
+    simp only [ListCaught, scan_noV6] at h ⊢
+    exact h
+
+/-- system-wide call on an IPv6-less Python over a world whose descriptors / processes fail in the "cannot be
+    inspected" ways: does not fail, returns the rows promised for the inspectable part minus the IPv6 sockets that
+    need an address text -/
+theorem scan_system_noV6 (c : Cfg) (hg : c.Good) (ht : c.TmapGood) (w : WorldE) (hw : w.view.WF)
+    (hi : w.Inspectable) (kind : String) (hk : kind ∈ kinds) :
+    ∃ rows, netConnectionsE c.noV6 (renderWorldE c.littleEndian w) kind none = .ok rows
+      ∧ Accepts (expects w.view.dropV6 ⟨kind, none⟩) rows := by
+  obtain ⟨rows, h1, h2⟩ := netConnections_system_noV6 c hg ht w.view hw kind hk
+  obtain ⟨e1, e2⟩ := erase_renderWorldE c hg c.littleEndian w hi
+  refine ⟨rows, ?_, h2⟩
+  rw [netConnectionsE_system c.noV6 _ kind (fun p hp => listCaught_noV6 c p.2 (e2 p hp)), eraseProcs_noV6, e1]
+  exact h1
+
 end Psutil.C11
